@@ -4,6 +4,7 @@ Model of internal/io/fs/readfilelcontext.go: the grep-context automaton
 and the block-wise specification of grep semantics it is proved equal to.
 -/
 import DtailModel.Model.Basic
+set_option autoImplicit true  -- the type variable α of the generic list functions below is bound implicitly
 namespace Dtail
 
 /-- `ltxState` (only the fields that change). -/
